@@ -17,8 +17,8 @@ from typing import Any
 from . import clf
 from . import common as C
 
-IMPORTS = "From LQ Require Import Core.Value Core.Syntax Core.Render."
-NEEDED = ["theories/Core/Value.v", "theories/Core/Syntax.v", "theories/Core/Render.v",
+IMPORTS = "From LQ Require Kernels.Trim.\nFrom LQ Require Import Core.Value Core.Syntax Core.Render."
+NEEDED = ["theories/Kernels/Trim.v", "theories/Core/Value.v", "theories/Core/Syntax.v", "theories/Core/Render.v",
           "theories/Proofs/Value_proofs.v", "theories/Proofs/Render_proofs.v", "theories/Proofs/Render_buffer.v", "theories/Proofs/Render_fuel.v"]
 
 LCLASSES = {
@@ -191,7 +191,7 @@ def main(chk: C.Check, build: C.Build) -> None:
         "tier_proved": "Core interpreter (CLF) refines the reference semantics; value-semantics laws",
     })
     chk.assumptions += [
-        "whitespace control: the harness gives the model each text already trimmed by an independent reference (clf.py_trim: each side of a text as the marker of the markup facing it says, default mode otherwise); the trim function itself is C18's kernel",
+        "whitespace control: each text reaches the model as Trim.trim (the C18 kernel, Kernels/Trim.v) of the source text under the markers of the markup facing it on either side (adjacency in the token stream: theorem c18_carry_is_adjacent), default mode where there is no marker",
         "auto_escape off, default Undefined policy, no resource limits except context depth",
         "cases whose model outcome is OUnmodelled (filter coercions of numeric strings, dict stringification, "
         "ForLoop objects used as data, negative limit/offset) are counted in outside_model_cases and not compared",
